@@ -54,7 +54,7 @@ struct NodeX {
       case 22: { uint32_t k = o.a % 4;   // LSS: switch only / inquire only (answered only in configuration state) / configure / both
         if (k == 0) s.rx(Frame::mk(0x7E5, 8, {4, (uint8_t)(o.b % 2), 0, 0, 0, 0, 0, 0}));
         else if (k == 1) s.rx(Frame::mk(0x7E5, 8, {94, 0, 0, 0, 0, 0, 0, 0}));
-        else if (k == 2) s.rx(Frame::mk(0x7E5, 8, {17, (uint8_t)(1 + o.b % 100), 0, 0, 0, 0, 0, 0}));
+        else if (k == 2) { s.rx(Frame::mk(0x7E5, 8, {17, (uint8_t)(1 + o.b % 100), 0, 0, 0, 0, 0, 0})); if (o.c % 2) s.rx(Frame::mk(0x7E5, 8, {23, 0, 0, 0, 0, 0, 0, 0})); }   // configure node id (+ store configuration: the reset then changes the node id)
         else { s.rx(Frame::mk(0x7E5, 8, {4, (uint8_t)(o.b % 2), 0, 0, 0, 0, 0, 0})); s.rx(Frame::mk(0x7E5, 8, {94, 0, 0, 0, 0, 0, 0, 0})); }
         break; }
       case 23: sdo(0x2B, (uint16_t)(0x1800 + o.b % 2), 5, (uint16_t[]){0, 5, 9}[o.a % 3]); break;
@@ -113,6 +113,8 @@ void case_impl(Ctx &c, bool from_callback) {
   CHECK(c, A.s.blocks.size() == B.s.blocks.size(), "harness", "recipe not deterministic");
   for (size_t i = 0; i < A.s.blocks.size(); i++) { Block &a = A.s.blocks[i], &b = B.s.blocks[i]; CHECK(c, a.n == b.n && a.name == b.name, "harness", "recipe not deterministic"); if (a.storage) memcpy(b.p, a.p, a.n); }
   for (size_t i = 0; i < A.hc.size(); i++) { B.hc[i]->Time = A.hc[i]->Time; B.hc[i]->NodeId = A.hc[i]->NodeId; }
+  B.s.lss_have = A.s.lss_have; B.s.lss_baud = A.s.lss_baud; B.s.lss_node = A.s.lss_node;     // the non-volatile LSS configuration belongs to the values the fresh node holds
+  if (A.s.lss_have && A.s.lss_node && A.s.lss_node != g.nodeid) c.cls("node-id-changed-by-stored-lss-configuration");
   int occA = A.s.timers_used();
   B.w.finish(false); B.s.clear_tx(); B.s.clear_ev();
   g_sim = &B.s; B.s.start();
@@ -121,7 +123,7 @@ void case_impl(Ctx &c, bool from_callback) {
   int applive = with_app_timer ? 1 : 0; (void)apptmr;
   // boot-up: the reset trace holds mode INIT, mode PRE-OP, reset request, boot-up frame; the fresh start holds mode PRE-OP and the boot-up frame
   auto has = [](const std::vector<std::string> &v, const char *needle) { for (auto &x : v) if (x.find(needle) != std::string::npos) return true; return false; };
-  char boot[64]; snprintf(boot, sizeof boot, "tx %03X [1] 00", 0x700u + g.nodeid);
+  char boot[64]; snprintf(boot, sizeof boot, "tx %03X [1] 00", 0x700u + A.s.node->NodeId);   // (the node id in force after the reset: a stored LSS configuration may have changed it)
   CHECK(c, has(resetTrace, boot) && has(startTrace, boot), "boot-up", "boot-up frame missing after %s", has(startTrace, boot) ? "the reset" : "the fresh start");
   CHECK(c, occA == occB + applive, "no-timer-slot-leaked", "timer slots in use right after the reset: %d; a fresh node uses %d (+ %d live application timer(s))", occA, occB, applive);
   // ---- probe sequence on both
